@@ -129,6 +129,19 @@ example :
       = stepEvents (runT (fun m => m) convC turnW [] (ofConv 1 schedW)) := by
   decide
 
+/-- `Compatible` cannot be dropped even for an injective key (here: the identity): conversation 1 sends
+    as an explicit transcript exactly the history that conversation 0 produced turn by turn; on the shared
+    instance it is continued from conversation 0's stored events (which include runtime events), alone it
+    is converted message by message.  (Open finding `same-history-other-conversation`: the cache is keyed by
+    the message history only, not by the conversation.) -/
+theorem compatible_needed_counterexample :
+    let s : List (Nat × List Msg) := [(0, [u ['a']]), (1, [u ['a'], a ['b'], u ['x']])]
+    stepEvents (ofConv 1 (runT (fun m => m) convC turnW [] s))
+      = [[.userFinished ['a'], .opaque 0, .userFinished ['x']]] ∧
+    stepEvents (runT (fun m => m) convC turnW [] (ofConv 1 s))
+      = [[.userFinished ['a'], .userMessage ['a'], .startBot ['b'], .botFinished ['b'], .userFinished ['x']]] := by
+  decide
+
 /-- non-vacuity of `isolated_if_disjoint`: the two conversations of the witness are `Disjoint`
     (their genuine histories are unrelated) under an injective key -/
 example : Disjoint (isoRuns (fun m : List Msg => m) convC turnW schedW) := by
